@@ -14,6 +14,10 @@ pub enum IsoMode {
     RoundTrip,
     /// input entities may be unmatched (deleted by a pass); nothing may be added
     Gc,
+    /// `b` embeds in `a`: every entity, export and the start of `b` has its counterpart in `a`,
+    /// `a` may have more of everything (used with a = edited output, b = unedited output:
+    /// additions made through the edit API must leave everything else as it was)
+    Embed,
 }
 
 #[derive(Clone, Debug, PartialEq, Eq)]
@@ -29,7 +33,7 @@ fn mm<T>(sig: impl Into<String>, detail: impl Into<String>) -> Result<T, Mismatc
 
 pub const SPACES: [Space; 6] = [Space::Func, Space::Table, Space::Mem, Space::Global, Space::Elem, Space::Data];
 
-fn sidx(s: Space) -> usize {
+pub fn sidx(s: Space) -> usize {
     match s {
         Space::Func => 0,
         Space::Table => 1,
@@ -706,33 +710,51 @@ pub fn iso(a: &WModule, b: &WModule, mode: IsoMode) -> Result<Maps, Vec<Mismatch
     }
     // exports: the same set of (name, kind); export names are unique in a valid module, and the
     // property does not fix their order (it does for imports and segments), so they are matched by name
-    if a.exports.len() != b.exports.len() {
-        errs.push(Mismatch {
-            sig: "export-count-changed".into(),
-            detail: format!("{} vs {}", a.exports.len(), b.exports.len()),
-        });
-    }
-    for x in a.exports.iter() {
-        let y = match b.exports.iter().find(|y| y.name == x.name) {
-            Some(y) => y,
-            None => {
-                errs.push(Mismatch { sig: "export-dropped".into(), detail: format!("{:?} has no counterpart", x) });
+    if mode == IsoMode::Embed {
+        for y in b.exports.iter() {
+            match a.exports.iter().find(|x| x.name == y.name) {
+                Some(x) if x.space == y.space => {
+                    tryp!(st.bind(x.space, x.index, y.index).map_err(|m| Mismatch { sig: format!("export:{}", m.sig), detail: format!("export {:?}: {}", x.name, m.detail) }));
+                }
+                Some(x) => errs.push(Mismatch { sig: "export-changed".into(), detail: format!("{:?} vs {:?}", x, y) }),
+                None => errs.push(Mismatch { sig: "export-dropped".into(), detail: format!("{:?} has no counterpart", y) }),
+            }
+        }
+        if let Some(y) = b.start {
+            match a.start {
+                Some(x) => tryp!(st.bind(Space::Func, x, y).map_err(|m| Mismatch { sig: format!("start:{}", m.sig), detail: m.detail })),
+                None => errs.push(Mismatch { sig: "start-changed".into(), detail: format!("None vs {:?}", y) }),
+            }
+        }
+    } else {
+        if a.exports.len() != b.exports.len() {
+            errs.push(Mismatch {
+                sig: "export-count-changed".into(),
+                detail: format!("{} vs {}", a.exports.len(), b.exports.len()),
+            });
+        }
+        for x in a.exports.iter() {
+            let y = match b.exports.iter().find(|y| y.name == x.name) {
+                Some(y) => y,
+                None => {
+                    errs.push(Mismatch { sig: "export-dropped".into(), detail: format!("{:?} has no counterpart", x) });
+                    continue;
+                }
+            };
+            if x.space != y.space {
+                errs.push(Mismatch {
+                    sig: "export-changed".into(),
+                    detail: format!("{:?} vs {:?}", x, y),
+                });
                 continue;
             }
-        };
-        if x.space != y.space {
-            errs.push(Mismatch {
-                sig: "export-changed".into(),
-                detail: format!("{:?} vs {:?}", x, y),
-            });
-            continue;
+            tryp!(st.bind(x.space, x.index, y.index).map_err(|m| Mismatch { sig: format!("export:{}", m.sig), detail: format!("export {:?}: {}", x.name, m.detail) }));
         }
-        tryp!(st.bind(x.space, x.index, y.index).map_err(|m| Mismatch { sig: format!("export:{}", m.sig), detail: format!("export {:?}: {}", x.name, m.detail) }));
-    }
-    match (a.start, b.start) {
-        (None, None) => {}
-        (Some(x), Some(y)) => tryp!(st.bind(Space::Func, x, y).map_err(|m| Mismatch { sig: format!("start:{}", m.sig), detail: m.detail })),
-        (x, y) => errs.push(Mismatch { sig: "start-changed".into(), detail: format!("{:?} vs {:?}", x, y) }),
+        match (a.start, b.start) {
+            (None, None) => {}
+            (Some(x), Some(y)) => tryp!(st.bind(Space::Func, x, y).map_err(|m| Mismatch { sig: format!("start:{}", m.sig), detail: m.detail })),
+            (x, y) => errs.push(Mismatch { sig: "start-changed".into(), detail: format!("{:?} vs {:?}", x, y) }),
+        }
     }
     if mode == IsoMode::RoundTrip {
         if a.imports.len() != b.imports.len() {
